@@ -187,3 +187,15 @@ _p(
     bounded=["graphs produced by the real track_scales (TorchDynamo) for 3 small modules (cat/stack, keyword tensor arguments, integer index tensors, views/negations, multi-output), rtol in {2^-16} (quick) / {2^-16, 2^-8, 2^-2} (thorough): no exception, lint, sub-sequence, exact removed set for the non-float helper, no invented paths, input graph unchanged"],
     explanation="PROVED (under the fx contracts): _prune never raises, removes the node and rewrites every user's arguments to the deep substitution node -> replacement for every argument nesting (also for the output node); prune_non_float_tensors / prune_same_scale_tensors work on a deep copy (input graph unchanged), remove a node iff the documented condition holds (non-float; exactly one float-tensor input whose mean |x| is within rtol forward and, when both recorded, backward -- math.isclose semantics exact), bypass it to its single float input wherever it appeared in the consumer's arguments, keep the order of the survivors and add nothing, and return a graph that lints; prune_selected_nodes cuts the edge (None) in place. BOUNDED: real tracked graphs.",
 )
+
+_p(
+    "C18",
+    level="other",
+    technique="contract-based deductive verification of the tracking autograd functions, Metrics.from_tensor, both run_node overrides and the input-requires-grad wrapper; end-to-end behaviour through TorchDynamo / fx.Interpreter by a bounded stand-in",
+    trusted_base=SMT + FX + ["assumed: fx.Interpreter executes the traced graph faithfully and stores what run_node returns for all consumers; autograd delivers to a Function's backward the gradient summed over all consumers (A2, A5)", "bounded/c18_tracking.py (bounded stand-in, not proof)"],
+    assumptions=[A2, A7, "torch reductions (abs, mean, std, max, min, item) are uninterpreted functions: 'the true statistics' means term equality with mean|x|, |mean x|, std, max|x|, min|x|, numel", "autograd tolerates extra trailing None gradients returned by a Function's backward (validated)"],
+    components=[comp.validators(["algebra", "fx"]), comp.script("c18-tracking-e2e", "BOUNDED stand-in", ["{ROOT}/bounded/c18_tracking.py"])],
+    bounded=["real track_scales vs the unwrapped module on 3 small modules (fan-out, integer intermediates, tensors with zeros): outputs and gradients bit-identical; input forward/backward metrics equal statistics recomputed from the actual tensor / total gradient"],
+    uncovered=["analyse_module's tracer (utils.py lines 183-324: source rewriting, autowrap) is not under contract"],
+    explanation="PROVED: ScaleTrackingAutogradFunction and ScaleTracker return the tracked tensor's value unchanged (clone / alias) and pass the gradient through unchanged; the only side effect is node_meta['metrics'] = Metrics(t) (forward) and .set_bwd(g) (backward) resp. the two std fields; Metrics.from_tensor's six fields are mean|x|, |mean x|, std, max|x|, min|x|, numel as terms over the torch reductions; bwd stays None until backward runs; both run_node overrides return the tracked tensor (so all consumers use it and its backward receives their summed gradient), never instrument non-float values and give them no metrics; _make_input_tensors_require_grad forwards every argument unchanged and only calls requires_grad_() on float tensors. BOUNDED: end-to-end bit-identity and metric recomputation.",
+)
